@@ -30,7 +30,17 @@ open Lungo.C01
 #print axioms Lungo.C01.refines_dropIndex
 #print axioms Lungo.C01.refines_dropAllIndexes
 #print axioms Lungo.C01.refines_dropIndexByKey
-#print axioms Lungo.C01.api_refines_partial
 #print axioms Lungo.C01.api_refines_run_from
 #print axioms Lungo.C01.api_refines_run
 #print axioms Lungo.C01.refines_createIndex
+#print axioms Lungo.C01.refines_updateOne
+#print axioms Lungo.C01.refines_updateMany
+#print axioms Lungo.C01.refines_findOneAndUpdate
+#print axioms Lungo.C01.refines_replaceOne
+#print axioms Lungo.C01.refines_findOneAndReplace
+#print axioms Lungo.C01.refines_bulkWrite
+#print axioms Lungo.C01.refines_expire
+#print axioms Lungo.C01.handles_distinct
+#print axioms Lungo.C01.handles_distinct_step
+#print axioms Lungo.C01.api_refines
+#print axioms Lungo.C01.okDB_step
